@@ -222,6 +222,24 @@ func checkNameSpans(fd *descriptorpb.FileDescriptorProto, text string) string {
 		grp := f.GetType() == descriptorpb.FieldDescriptorProto_TYPE_GROUP
 		name(path, 1, f.GetName(), what, grp)
 		number(path, 3, int64(f.GetNumber()), what)
+		// the type_name location covers the reference as written: its last component is the type's simple name
+		// (map fields have no such location: their type is the synthesized entry)
+		if tn := f.GetTypeName(); tn != "" {
+			ls := byPath[pathStr(append(append([]int32{}, path...), 6))]
+			if len(ls) == 0 {
+				if !strings.HasSuffix(tn, "Entry") {
+					fail("%s: no type_name location", what)
+				}
+			} else if got, ok := spanText(lines, ls[0].Span); !ok {
+				fail("%s: type_name span %v outside the file", what, ls[0].Span)
+			} else {
+				want := tn[strings.LastIndex(tn, ".")+1:]
+				g := strings.TrimSpace(got)
+				if g[strings.LastIndex(g, ".")+1:] != want && !strings.HasPrefix(g, "map") {
+					fail("%s: location [%s,6] covers %q, the field's type is %s", what, pathStr(path), got, tn)
+				}
+			}
+		}
 	}
 	var enum func(path []int32, e *descriptorpb.EnumDescriptorProto)
 	enum = func(path []int32, e *descriptorpb.EnumDescriptorProto) {
